@@ -885,6 +885,44 @@ func unionMemberCycleCases(emit emitter) {
 	acc("array-free-chain", "branch struct A holds top-level struct B, no way back", "union U {\n    1 -> struct A {\n        B b;\n    }\n}\nstruct B {\n    int32 v;\n}\nstruct Uses {\n    A a;\n    B b;\n}\n")
 }
 
+// crossFileCases: the same semantic errors with the two halves in different files of one schema (combined import mode):
+// a definition is a definition wherever it was written.
+func crossFileCases(emit emitter) {
+	file := func(name, text string) string { return fileMarker + name + "\n" + text }
+	rej := func(class, kind, detail, site string, parts ...string) {
+		emit(Case{Base: "cross-file", Class: class, SiteKind: kind, Detail: detail, Site: site, Schema: strings.Join(parts, ""), Expect: "reject"})
+	}
+	acc := func(detail, site string, parts ...string) {
+		emit(Case{Base: "cross-file", Class: "acyclic-graph", SiteKind: "cross-file-control", Detail: detail, Site: site, Schema: strings.Join(parts, ""), Expect: "accept", Control: true})
+	}
+	root := "import \"dep.bop\"\nstruct Root {\n    int32 x;\n    Dep d;\n}\n"
+	dep := "struct Dep {\n    int32 y;\n}\n"
+	acc("plain", "root imports dep and uses its struct", file("root.bop", root), file("dep.bop", dep))
+	rej("duplicate-definition", "struct/struct", "across-files", "struct Root defined in the root and again in the imported file", file("root.bop", root), file("dep.bop", dep+"struct Root {\n    string s;\n}\n"))
+	rej("duplicate-definition", "struct/message", "across-files", "struct Root in the root, message Root in the imported file", file("root.bop", root), file("dep.bop", dep+"message Root {\n    1 -> string s;\n}\n"))
+	rej("duplicate-definition", "enum/struct", "across-two-imports", "enum Twice in one imported file, struct Twice in another",
+		file("root.bop", "import \"a.bop\"\nimport \"b.bop\"\nstruct Root {\n    int32 x;\n}\n"), file("a.bop", "enum Twice {\n    A = 1;\n}\n"), file("b.bop", "struct Twice {\n    int32 v;\n}\n"))
+	rej("duplicate-definition", "union-member/struct", "across-files", "a union branch struct in the imported file is named like a root struct",
+		file("root.bop", root), file("dep.bop", dep+"union DU {\n    1 -> struct Root {\n        int32 q;\n    }\n}\n"))
+	rej("duplicate-opcode", "struct/message", "across-files", "opcode 7 on a root struct and on an imported message",
+		file("root.bop", "import \"dep.bop\"\n[opcode(7)]\nstruct Root {\n    int32 x;\n}\n"), file("dep.bop", "[opcode(0x7)]\nmessage DepM {\n    1 -> int32 y;\n}\n"))
+	rej("duplicate-opcode", "union/struct", "across-files-4char", "opcode \"ABCD\" on a root union and the same value as an integer on an imported struct",
+		file("root.bop", "import \"dep.bop\"\n[opcode(\"ABCD\")]\nunion RU {\n    1 -> struct RA {\n        int32 x;\n    }\n}\n"), file("dep.bop", "[opcode(0x44434241)]\nstruct DepS {\n    int32 y;\n}\n"))
+	rej("const-named-like-type", "const/struct", "across-files", "a const in the imported file is named like a root struct", file("root.bop", root), file("dep.bop", dep+"const int32 Root = 1;\n"))
+	rej("struct-cycle", "length=2", "across-files", "root struct A holds imported struct B, which holds A",
+		file("root.bop", "import \"dep.bop\"\nstruct A {\n    B b;\n}\n"), file("dep.bop", "struct B {\n    A a;\n}\n"))
+	rej("undefined-type", "struct-field", "in-imported-file", "the imported file uses a type defined nowhere", file("root.bop", root), file("dep.bop", dep+"struct Uses {\n    Missing m;\n}\n"))
+	rej("duplicate-enum-value", "enum", "in-imported-file", "the imported file has an enum with a duplicate value", file("root.bop", root), file("dep.bop", dep+"enum DE {\n    A = 1;\n    B = 1;\n}\n"))
+	// two real files with one relative spelling: the second one must be read, and what is wrong in it must be seen
+	common := "struct Common {\n    int32 a;\n}\n"
+	feature := "import \"./common.bop\"\nstruct Feature {\n    int32 f;\n}\n"
+	rootSame := "import \"./common.bop\"\nimport \"./sub/feature.bop\"\nstruct Root {\n    Common c;\n    Feature f;\n}\n"
+	acc("same-spelling-two-files", "sub/feature.bop imports its own ./common.bop", file("root.bop", rootSame), file("common.bop", common), file("sub/feature.bop", feature), file("sub/common.bop", "struct SubCommon {\n    int32 b;\n}\n"))
+	rej("duplicate-definition", "struct/struct", "same-spelling-two-files", "sub/common.bop defines struct Common again", file("root.bop", rootSame), file("common.bop", common), file("sub/feature.bop", feature), file("sub/common.bop", common))
+	rej("duplicate-opcode", "struct/message", "same-spelling-two-files", "sub/common.bop reuses the root's opcode",
+		file("root.bop", "import \"./common.bop\"\nimport \"./sub/feature.bop\"\n[opcode(9)]\nstruct Root {\n    Common c;\n}\n"), file("common.bop", common), file("sub/feature.bop", feature), file("sub/common.bop", "[opcode(9)]\nmessage Ping {\n    1 -> int32 n;\n}\n"))
+}
+
 // scaleCases: long chains and rings (termination and verdict of the fixpoint at sizes far above the graph bound),
 // and array/map-of-self shapes whose verdict is unasserted (termination only).
 func scaleCases(sizes []int, emit emitter) {
